@@ -70,7 +70,8 @@ fn replay_payload(plan: &'static Plan, p: &Value) -> Result<(), (String, String)
                         // replay files written before the query stages carried only the data document's name
                         p2["data"].as_str().and_then(|n| plan.docs.iter().find(|d| d.name == n)).map(|d| cases::Other { format: d.format, set: d.set.clone(), name: d.name.clone(), bytes: d.bytes.clone() })
                     };
-                    cases::exec_doc(format, &set, mode, bed_n, raw, other.as_ref(), &input).map(|(_, ok)| format!("ok={ok}"))
+                    let len_hint = p2["len_hint"].as_u64().unwrap_or(0) as usize;
+                    cases::exec_doc(format, &set, mode, bed_n, raw, len_hint, other.as_ref(), &input).map(|(_, ok)| format!("ok={ok}"))
                 }
             });
             match r {
